@@ -201,6 +201,20 @@ def hue_tolerance(ck, ctx, fwd, atoms, lemmas):
         if c.op in ('lt', 'le') and c.args[1].is_const and 0 < float(c.args[1].val) < 0.1 and c.args[0].op == 'call:abs' and c.args[0].args[0].op == 'fsub':
             return c.args[0].args[0].args + (float(c.args[1].val),)
         raise Unsupported('sextant test is not |a - b| < constant')
+    # two shapes of the same kernel: the wrap applied to the whole selection  W(c < eps ? 0 : ...)  (the source's shape) or
+    # distributed over its branches  c < eps ? 0 : |v-r| < eps ? W(Hr) : ...  (what the interpreter produced while forks
+    # inside the chain were merged late); W(0) = 0 and W commutes with the selection, so both denote the same function
+    outer_wrap = False
+    try:
+        inner_ = unwrap(top)
+        if inner_.op == 'select' and inner_.args[1].is_const and inner_.args[1].val == 0.0:
+            top = inner_; outer_wrap = True
+    except Unsupported:
+        pass
+    def unwrap_branch(W):
+        if outer_wrap:
+            return W
+        return unwrap(W)
     if not (top.op == 'select' and top.args[1].is_const and top.args[1].val == 0.0):
         raise Unsupported('no achromatic guard')
     cnode = top.args[0].args[0].args[0] if top.args[0].op == 'lt' and top.args[0].args[0].op == 'call:abs' else None
@@ -215,7 +229,7 @@ def hue_tolerance(ck, ctx, fwd, atoms, lemmas):
     if not (v1 is cnode.args[0] and v2 is cnode.args[0] and x1.id in ids and x2.id in ids and x1 is not x2):
         raise Unsupported('sextant tests do not compare the maximum with two different channels')
     x3 = [a for a in atoms if a is not x1 and a is not x2][0]
-    H = {x1.id: unwrap(b1.args[1]), x2.id: unwrap(b1.args[2].args[1]), x3.id: unwrap(b1.args[2].args[2])}
+    H = {x1.id: unwrap_branch(b1.args[1]), x2.id: unwrap_branch(b1.args[2].args[1]), x3.id: unwrap_branch(b1.args[2].args[2])}
     order = [x1, x2, x3]                      # test order of the code
     names = {a.id: 'rgb'[i] for i, a in enumerate(atoms)}
     # (1) rounding error of the three formulas where max - min >= 0.01
